@@ -6,8 +6,8 @@ for d in sorted(glob.glob(root + '/C*-*')):
     pid, n = os.path.basename(d).split('-')
     notes = open(d + '/notes.md').read() if os.path.exists(d + '/notes.md') else ''
     title = notes.strip().splitlines()[0].lstrip('# ').strip() if notes.strip() else ''
-    m = re.search(r'(?is)needed circumstances[^:]*:\s*(.*?)(?:\n- |\n\n|\Z)', notes) or \
-        re.search(r'(?is)(?:needs|manifest)[^:\n]*:\s*(.*?)(?:\n- |\n\n|\Z)', notes)
+    m = re.search(r'(?is)(?:needed circumstances|circumstances needed|minimal trigger|trigger)[^:\n]*:\s*(.*?)(?:\n- |\n\n|\Z)', notes) or \
+        re.search(r'(?is)(?:needs|needed|manifest)[^:\n]*:\s*(.*?)(?:\n- |\n\n|\Z)', notes)
     needs = ' '.join(m.group(1).split()) if m else ''
     files = sorted(set(re.findall(r'^\+\+\+ b/(\S+)', open(d + '/patch.diff').read(), re.M)))
     meta_p = d + '/meta.json'
